@@ -524,7 +524,17 @@ def run(ctx):
                 "blocks, dict of lists, list of rows, 2-D arrays, numpy scalars and 0-d arrays for sizes, constants, "
                 "orientation and coverages; the same object passed twice); histories of 4..25 operations on all "
                 "entry points in one process with returned and passed objects overwritten by the caller in "
-                "between (an answer returned stays what it was; the same call answers the same); non-trivial = "
+                "between (an answer returned stays what it was; the same call answers the same); extreme but "
+                "legal magnitudes for every helper decided by comparisons (values of the order of 1e-11 .. 1e-300, "
+                "whole multiples of the smallest double, 1e+11 .. 1e+300, neighbouring doubles, values equal to 10 "
+                "decimals, mixed magnitudes, +-0; lhs ranges of width 1e-312 .. 1e+300 and ranges far from zero a "
+                "few hundred spacings wide; tolerances relative to the sample); constants at the ends of [0, 0.5], "
+                "sizes to 65536 (ppos); rank_method min / max / first / dense; coverages at the ends of their "
+                "ranges, 3 / 4 / 5 finite values, levels exactly on sample values, up to 12 categories; lives of "
+                "the plot objects (every constructor option of Boxplot / Violin, then draw on linear / log axis, "
+                "offsets, current / given / same axis, show_count, set_ylim, set_color, reset_items, item settings "
+                "in any order: the stored summaries read after each operation are examined by the oracle of a "
+                "fresh answer; data with zeros, negative values, NaN rows, constant columns); non-trivial = "
                 "distinct (function, size class, tie/NaN class, outcome, representation) signature")
     ctx.trusted = cm.STD_TRUST + [
         "numpy.linspace and numpy.percentile (linear method) are modelled from their source and validated by "
@@ -537,6 +547,9 @@ def run(ctx):
         "pandas glue: DataFrame.apply / groupby.apply / pivot_table / quantile / median / rank (group-wise = group alone, tested)",
         "scipy.stats.gaussian_kde and norm.ppf (external; ppf assumed strictly increasing on (0,1))",
         "density profile in [0,1] with min 0 and max 1 on the implementation (theorem is about the normalisation step)",
+        "lives of the plot objects (constructor options, draw / show_count / set_ylim / set_color / reset_items / item "
+        "settings): the summaries read afterwards are examined by the oracle only",
+        "rank_method other than average; ppos for more than 2000 values (oracle only)",
     ]
     # Props/PyTieScores.vo: ppos / compute_percentiles as TRANSLATED from the source = the model
     proved = cm.prove_with_kernels(ctx, ["c_paretofront"], extractors=["c20", "pygen"],
